@@ -296,15 +296,40 @@ GroupingRel(t, u) ==
   /\ \A i \in Pos(t) : O(t, i).gp \in GpSet(u) =>
         LET v == O(u, PosOf(u, O(t, i).gp)) IN Intrinsic(v) = Intrinsic(O(t, i)) /\ Sets(v) = Sets(O(t, i))
 
+\* When the stores are observed (recorder option "stores 1") a call on one store leaves the other two alone, a refused call leaves all
+\* three alone, and the distances store - the structures hwloc_distances_get() returns, each with the name its handle answers to -
+\* moves exactly by the structure the call names: a committed structure is appended under the name given to add_create, with the objects
+\* given to add_values; release_remove of a handle removes that very structure; hwloc_distances_remove() removes all.  (What the stored
+\* values are is C13's, C14's and C15's business.)
+Without(q, k) == [i \in 1..(Len(q) - 1) |-> IF i < k THEN q[i] ELSE q[i + 1]]
+StoresFrame(e, t, u) ==
+  (t.hasst = 1 /\ u.hasst = 1) =>
+    LET a == t.stores  b == u.stores IN
+    /\ e.e \in {"dist_add", "dist_remove", "dist_remove_one"} => (b.ma = a.ma /\ b.ck = a.ck)
+    /\ e.e = "memattr" => (b.dist = a.dist /\ b.ck = a.ck)
+    /\ e.e \in {"cpukind", "cpukind_info"} => (b.dist = a.dist /\ b.ma = a.ma)
+    /\ (e.e = "dist_add" /\ e.ret = -1) => b.dist = a.dist
+    /\ (e.e = "dist_add" /\ e.ret = 0) =>
+          /\ Len(b.dist) = Len(a.dist) + 1
+          /\ \E k \in 1..Len(b.dist) : /\ Without(b.dist, k) = a.dist
+                                       /\ b.dist[k].name = <<e.name>> /\ b.dist[k].n = e.nb
+                                       /\ (e.addflags = 0 => b.dist[k].objs = e.objs)
+    /\ e.e = "dist_remove" => (e.ret = 0 /\ b.dist = <<>>)
+    /\ e.e = "dist_remove_one" =>
+          IF e.nr = 0 THEN b.dist = a.dist
+          ELSE /\ e.ret = 0 /\ Len(a.dist) = e.nr /\ (e.name # "" => a.dist[e.k + 1].name = <<e.name>>)
+               /\ b.dist = Without(a.dist, e.k + 1)
+
 \* the XML export digest (xd) covers the stores, so it may move here; nothing else does
 StoreRel(e, t, u) ==
   /\ (e.e # "cpukind_info" => e.ret \in {0, -1})       \* hwloc_modify_infos returns the number of pairs it changed
+  /\ StoresFrame(e, t, u)
   /\ IF e.e = "dist_add" /\ e.commit = 0 /\ (e.addflags % 4) # 0 /\ e.addflags < 4
      THEN GroupingRel(t, u)
      ELSE [u EXCEPT !.xd = <<>>, !.stores = <<>>] = [t EXCEPT !.xd = <<>>, !.stores = <<>>]
 
 ModifyingEvents == {"restrict", "insert_misc", "group", "group_obj", "group_free", "allow", "add_info", "set_subtype", "refresh",
-                    "dist_add", "dist_remove", "memattr", "cpukind", "cpukind_info"}
+                    "dist_add", "dist_remove", "dist_remove_one", "memattr", "cpukind", "cpukind_info"}
 
 \* t is the stored (tagged) projection before, u the logged one after
 ModifyRel(e, t, u, slot) ==
@@ -317,7 +342,7 @@ ModifyRel(e, t, u, slot) ==
     [] e.e = "add_info"    -> AddInfoRel(e, t, u)
     [] e.e = "set_subtype" -> SetSubtypeRel(e, t, u)
     [] e.e = "refresh"     -> RefreshRel(e, t, u)
-    [] e.e \in {"dist_add", "dist_remove", "memattr", "cpukind", "cpukind_info"} -> StoreRel(e, t, u)
+    [] e.e \in {"dist_add", "dist_remove", "dist_remove_one", "memattr", "cpukind", "cpukind_info"} -> StoreRel(e, t, u)
 
 (* ------------------------------------------------------------------ *)
 (* hwloc_topology_dup (C12): the copy is observably identical,         *)
